@@ -45,7 +45,7 @@ type evSeq struct {
 
 type evSub struct {
 	lossy, mask bool
-	incl        bool // WithInclude(percentage is even): include converts / drops events (new objects), not part of the tie answers
+	incl        bool   // WithInclude(percentage is even): include converts / drops events (new objects), not part of the tie answers
 	pace        string // backpressure: "drain"; lossy: "stalled" | "slow" | "drain"
 	ch          <-chan *resource.CollectionChange
 	cancel      context.CancelFunc
